@@ -9,7 +9,7 @@
 From Coq Require Import List Arith NArith Bool Lia Permutation.
 Import ListNotations.
 Require Import S1 VParse Py VMeaning SpecModel SpecParse SpecContains SetModel SetsModel SetsBridge SetsFs SetsLaws SetsLink SetsFilter SpecOps VKeyEq.
-Require Import SetsFilterMore.
+Require Import SetsFilterMore SetsWorld SetsWorldLaws.
 Open Scope N_scope.
 
 (* 1. the gate: a pre-release candidate is matched only if pre-releases are enabled - by the argument, else by the override,
@@ -236,6 +236,54 @@ Theorem C06_fallback_emptyset_text s p S arg texts xs : SpecifierSet s p = Some 
     end)).
 Proof. exact (empty_set_filter_text s p S arg texts xs). Qed.
 Print Assumptions C06_fallback_emptyset_text.
+
+(* 9'. histories over objects WITH IDENTITY (SetsWorld; the s.world command runs wstep): Specifier objects live in a heap, sets hold
+       references, a & b holds the operands' member objects.  After any history of constructions, &, assignments to a set, assignments to
+       a member object (through any alias) and reads: every pre-existing object is unchanged except that its override is its latest
+       assignment (frame: assigning one object never touches another; membership and _spec never change; reads write nothing) ... *)
+Theorem C06_world_history ops w : frame w (wrun w ops) ops.
+Proof. exact (world_history ops w). Qed.
+Print Assumptions C06_world_history.
+Theorem C06_world_reads_do_not_write w i a o : fst (wstep w (WRead i o)) = w /\ fst (wstep w (WReadCell a o)) = w.
+Proof. exact (reads_do_not_write w i a o). Qed.
+Print Assumptions C06_world_reads_do_not_write.
+(* ... so what a set answers is what SetsModel answers for its members under their latest overrides and its own latest override ... *)
+Theorem C06_world_resolve ops w i : wf_world w -> (i < length (sets w))%nat ->
+  resolve (wrun w ops) i =
+  {| ms := map (fun a => {| m_sp := c_sp (cell_at w a); m_ov := latest_cell a ops (c_ov (cell_at w a)) |}) (h_ms (set_at w i));
+     ov := latest_set i ops (h_ov (set_at w i)) |}.
+Proof. exact (resolve_after ops w i). Qed.
+Print Assumptions C06_world_resolve.
+(* ... and two histories with the same latest assignments (to the set and to each of its member objects) give the same outputs *)
+Theorem C06_world_history_outputs w ops ops' i o : wf_world w -> (i < length (sets w))%nat ->
+  latest_set i ops (h_ov (set_at w i)) = latest_set i ops' (h_ov (set_at w i)) ->
+  (forall a, In a (h_ms (set_at w i)) -> latest_cell a ops (c_ov (cell_at w a)) = latest_cell a ops' (c_ov (cell_at w a))) ->
+  snd (wstep (wrun w ops) (WRead i o)) = snd (wstep (wrun w ops') (WRead i o)).
+Proof. exact (reads_depend_on_latest w ops ops' i o). Qed.
+Print Assumptions C06_world_history_outputs.
+Theorem C06_world_history_outputs_specifier w ops ops' a o : (a < length (cells w))%nat ->
+  latest_cell a ops (c_ov (cell_at w a)) = latest_cell a ops' (c_ov (cell_at w a)) ->
+  snd (wstep (wrun w ops) (WReadCell a o)) = snd (wstep (wrun w ops') (WReadCell a o)).
+Proof. exact (cell_reads_depend_on_latest w ops ops' a o). Qed.
+Print Assumptions C06_world_history_outputs_specifier.
+(* sharing: at every moment after c = a & b, the members of c are the union of the CURRENT members of a and b (same objects), so an
+   assignment to a member of a is seen through c; likewise SpecifierSet([objects]) *)
+Theorem C06_world_and_shares_members w i j o ops : wf_world w -> (i < length (sets w))%nat -> (j < length (sets w))%nat ->
+  SetModel.merge (h_ov (set_at w i)) (h_ov (set_at w j)) = Some o ->
+  let k := length (sets w) in
+  let w' := wrun w (WAnd i j :: ops) in
+  ms (resolve w' k) = fs_union (ms (resolve w' i)) (ms (resolve w' j)) /\ ov (resolve w' k) = latest_set k ops o.
+Proof. exact (and_shares_members w i j o ops). Qed.
+Print Assumptions C06_world_and_shares_members.
+Theorem C06_world_set_shares_members w addrs p ops : Forall (fun a => (a < length (cells w))%nat) addrs ->
+  let k := length (sets w) in
+  let w' := wrun w (WSet addrs p :: ops) in
+  resolve w' k = SpecifierSet_of (map (member_at w') addrs) (latest_set k ops p).
+Proof. exact (set_shares_members w addrs p ops). Qed.
+Print Assumptions C06_world_set_shares_members.
+Theorem C06_world_sharing_nonvacuous : sharing_check = true.
+Proof. exact sharing_nonvacuous. Qed.
+Print Assumptions C06_world_sharing_nonvacuous.
 
 (* non-vacuity: Specifier(">=1.0") is a wf_member that does not name a pre-release; filter(["1.5a1"]) falls back to the pre-release,
    filter(["1.5a1","2.0"]) returns the final only, and with prereleases=False on the object (D22 repaired) nothing is returned *)
